@@ -65,7 +65,7 @@ fn data_url_borrowed<const N: usize, const PREFIXED: bool, const DECODE: bool>()
                     _ => panic!("C18: decoded_data() of a non-base64 URL is not a borrowed view of the data"),
                 }
             }
-            cover!(b64, "base64 flagged");
+            cover!(b64 || N < 13, "base64 flagged (needs at least 13 bytes)");
             cover!(!b64 && me > 5 && ds < b.len(), "media type and data present");
             cover!(!b64 && ds + 2 < b.len() && b[ds + 1] == b',', "a ',' inside the data");
         }
@@ -106,15 +106,7 @@ fn data_url_owned<const N: usize>() {
     }
 }
 
-// @h prop=C18 tier=quick kind=check timeout=2400 mem=16 bound="any byte string <= 7 bytes (data:,x and data:,, fit)" encodes="DataUrl::{new,media_type,is_base_64_encoded,encoded_data,parts};DataUrlDelimiters::parse (Uri::validate -> table twin)"
-#[cfg_attr(kani, kani::proof)]
-#[cfg_attr(kani, kani::unwind(10))]
-#[cfg_attr(kani, kani::stub(iref_core::uri::Uri::validate, crate::tables::t_uri_uri_validate_iter))]
-pub fn c18_data_url_borrowed_n7() {
-    data_url_borrowed::<7, false, false>()
-}
-
-// @h prop=C18 tier=thorough kind=check timeout=3000 mem=24 bound="any byte string <= 9 bytes" encodes="same as c18_data_url_borrowed_n7"
+// @h prop=C18 tier=quick kind=check timeout=2400 mem=24 bound="any byte string <= 9 bytes (data:a,x and data:,a,b fit; ;base64, does not)" encodes="DataUrl::{new,media_type,is_base_64_encoded,encoded_data,parts};DataUrlDelimiters::parse (Uri::validate -> table twin)"
 #[cfg_attr(kani, kani::proof)]
 #[cfg_attr(kani, kani::unwind(12))]
 #[cfg_attr(kani, kani::stub(iref_core::uri::Uri::validate, crate::tables::t_uri_uri_validate_iter))]
